@@ -69,6 +69,8 @@ pub struct Options {
     pub runs_override: Option<u64>,
     pub out: Mutex<std::fs::File>,
     pub write_evidence: bool,
+    /// Survey mode: run everything, tally violations by oracle, no minimisation (diagnostics only).
+    pub survey: bool,
 }
 
 impl Options {
@@ -264,7 +266,7 @@ pub fn run_batch(scen: &dyn Scenario, opts: &Options) -> i32 {
                     if run >= n_runs {
                         break;
                     }
-                    if run > min_fail.load(Ordering::Relaxed) {
+                    if !opts.survey && run > min_fail.load(Ordering::Relaxed) {
                         continue;
                     }
                     slot.store(run + 1, Ordering::Relaxed);
@@ -327,6 +329,18 @@ pub fn run_batch(scen: &dyn Scenario, opts: &Options) -> i32 {
     let mut status = 0;
     let mut violations = 0;
     rep.failures.sort_by_key(|(r, _)| *r);
+    if opts.survey {
+        let mut tally: BTreeMap<String, (u64, u64, String)> = BTreeMap::new();
+        for (run, v) in &rep.failures {
+            let e = tally.entry(v.oracle.clone()).or_insert((0, *run, v.detail.clone()));
+            e.0 += 1;
+        }
+        for (o, (n, run, detail)) in &tally {
+            opts.say(&format!("SURVEY {n:>7} x {o}  (first run {run}) {}", detail.chars().take(300).collect::<String>()));
+        }
+        opts.say(&format!("SURVEY total failing runs {} of {}", rep.failures.len(), rep.runs));
+        return if rep.failures.is_empty() { 0 } else { 1 };
+    }
     if let Some((run, v)) = rep.failures.first().cloned() {
         violations = 1;
         status = report_violation(scen, opts, &listed, seed, run, &v);
@@ -353,7 +367,7 @@ pub fn run_batch(scen: &dyn Scenario, opts: &Options) -> i32 {
                     let r = scen.execute(&plan, &mut ctx);
                     if r.is_ok() && ctx.known.get(id).copied().unwrap_or(0) > 0 {
                         opts.say(&format!(
-                            "KNOWN-FINDING: property={prop} {id} {desc} (witness {wit} still fails; {} matching runs in this batch)",
+                            "KNOWN-FINDING: property={prop} {id} {desc} (witness {wit} still fails; {} matching tokenizations in this batch)",
                             rep.known.get(id).copied().unwrap_or(0)
                         ));
                     } else if let Err(v) = r {
